@@ -249,6 +249,16 @@ def compiled_part(chk: Check, model, cv: CompiledView):
     plain = ret
     for c in conds:
         plain = T.assume(plain, c, False)
+    # with a record, the result is the same updated graph state with only the record's output leaf replaced
+    rec_on = ret
+    for c in conds:
+        rec_on = T.assume(rec_on, c, True)
+    ok_on = rec_on[0] == "call" and T.call_name(rec_on) == "equinox.tree_at" and len(rec_on[2]) == 3 and rec_on[2][1] == plain
+    if ok_on:
+        where = sub.ev.invoke(rec_on[2][0], [S("_gs")], sub.frame) if rec_on[2][0][0] == "closure" else T.NONE
+        ok_on = mentions(where, "aux") and where[0] in ("attr", "sym") and T.show(where).endswith(".steps.output")
+    chk.add("C13.noninterference", "update_state with record == without record + the record's output leaf", bool(conds) and bool(ok_on),
+            f"with a record update_state returns {T.show(rec_on)[:200]}: it must be eqx.tree_at(<record output leaf>, <the state returned without a record>, ...)", chk.loc(f3))
     chk.add("C13.noninterference", "update_state without record", bool(conds) and not mentions(plain, "tree_at") and mentions(plain, "replace_step_states"),
             "without a record update_state must return the plain updated graph state", chk.loc(f3))
     upd = [e for e in sub.events if e.kind == "store_sub" and not e.name.startswith("self.") and not mentions(e.term, "tree_at")]
@@ -276,7 +286,6 @@ def compiled_part(chk: Check, model, cv: CompiledView):
             chk.add("C13.rows", f"init_record template {f} = -1", okf, f"StepRecord template {f} = {T.show(v)[:80]}", chk.loc(fi, recs[0].node))
     else:
         chk.unknown("C13.rows", "init_record template", f"expected one StepRecord template in init_record, found {len(recs)}", chk.loc(fi))
-    fills = [x for e in rr.events if e.kind == "store_sub" and e.name == "node_records" for x in T.walk(e.term) if x[0] == "call" and T.call_name(x) == "jax.numpy.ones"]
     steps_terms = [dict(e.term[2]).get("steps") for e in rr.events if e.kind == "call" and e.name == "new:NodeRecord"]
     ok = False
     for stt in steps_terms:
